@@ -488,23 +488,6 @@ func c02Valid(in []int64) bool {
 	return true
 }
 
-// F13: zero-value SkipListWithCmp (no Init, no Clear yet), RangeWithStart / RangeWithRange
-func c02Known(in, out []int64) string {
-	kind, _, ops, ok := c02Parse(in)
-	if !ok || kind < 4 || len(out) != 1 || out[0] != PANIC {
-		return ""
-	}
-	for i := 0; i+3 < len(ops); i += 4 {
-		switch ops[i] {
-		case 0, 11:
-			return ""
-		case 16, 17:
-			return "F13"
-		}
-	}
-	return ""
-}
-
 func c02Shrink(in []int64) [][]int64 {
 	kind, _, ops, ok := c02Parse(in)
 	if !ok {
@@ -676,9 +659,7 @@ func c02Gen(c *Ctx) {
 				b.op(7, 0, 0, 0)
 				b.op(14, 0, 0, 0)
 				b.op(15, 0, 0, 0)
-				if k < 4 || b.inits || b.clrd {
-					b.op(16, 1, 0, 0) // (on an untouched zero value of the cmp variant this is the known finding F13: kept to its own cases)
-				}
+				b.op(16, 1, 0, 0)
 				if b.ins == 0 && h > 1 {
 					continue
 				}
@@ -686,21 +667,10 @@ func c02Gen(c *Ctx) {
 				zfam = append(zfam, fam)
 			}
 		}
-		isRS := func(o op4) bool { return o[0] == 16 || o[0] == 17 }
 		for _, o := range all {
-			if k >= 4 && isRS(o) && o[3] != 0 {
-				continue // F13 cases are kept few (the framework keeps 40 failures): {16,1,0,0} {16,0,1,0} {17,0,5,0} alone
-			}
 			emit([]op4{o}, "zero-1")
 			emit([]op4{{11, 0, 0, 0}, o}, "zero-clear-1")
 			for _, o2 := range all {
-				if k >= 4 && isRS(o) {
-					continue
-				}
-				if k >= 4 && isRS(o2) && !(k == 4 && o2[0] == 16 && o2[1] == 1 && (o[0] == 4 || o[0] == 10 || o[0] == 3)) {
-					emit([]op4{o, {11, 0, 0, 0}, o2}, "zero-clear-2")
-					continue
-				}
 				emit([]op4{o, o2}, "zero-2")
 				emit([]op4{o, {11, 0, 0, 0}, o2}, "zero-clear-2")
 			}
@@ -865,8 +835,8 @@ func c02Gen(c *Ctx) {
 		}
 		if kind >= 4 || r.Intn(3) == 0 {
 			if kind >= 4 && r.Intn(4) == 0 {
-				// a few reads on the zero value first (never RangeWithStart here: that is the known finding's own family)
-				b.op([]int64{4, 7, 8, 10, 12, 14}[r.Intn(6)], key(), 0, 0)
+				// a few reads on the zero value first
+				b.op([]int64{4, 7, 8, 10, 12, 14, 16, 17}[r.Intn(8)], key(), int64(r.Intn(3)), 0)
 			}
 			b.op(0, 0, 0, 0)
 		}
@@ -970,7 +940,7 @@ func c02Gen(c *Ctx) {
 
 func init() {
 	Register(&Prop{ID: "C02", Num: 2, SpecMode: "equal", Gen: c02Gen, Impl: c02Impl,
-		Shrink: c02Shrink, Describe: c02Describe, Known: c02Known,
+		Shrink: c02Shrink, Describe: c02Describe,
 		Rule: "zero-value matrix (every method alone, after Clear, in pairs) for SkipList[int|string] and SkipListWithCmp under ascending/reversed/composite/string comparators; " +
 			"exhaustive: every sequence up to the tier's length over Set(k, raw height h) k in {1,2,3} h in {1,2,3,32}, Remove k, Clear, SetX, SetNx, RangeWithStart, Init; " +
 			"random: 8-70 operations, raw random words scripted (geometric, all-tall, tall-then-flat, extremes, grow-then-shrink), start keys next to removed keys, callbacks stopping after 0-4 calls. " +
